@@ -39,6 +39,17 @@ var propConfigs = map[string]propConfig{
 	"C20": {ID: "C20", Level: "proof",
 		Explain: "Event history: syncSaveEvent keeps at most limit entries dropping the oldest, syncPubEvent saves exactly the unrestricted publications with id, arguments and subscription, independent of subscribers.",
 		Assume: []string{"github.com/gammazero/deque is a sequence ADT (PushBack/PopFront/Len/At)"}},
+	"C04": {ID: "C04", Level: "proof", SafetyOnly: true,
+		Sweep: []string{repoMod + "/router.", repoMod + "/wamp.", repoMod + "/router/auth."},
+		SweepSkip: sweepSkipC04,
+		Explain: "Zero-annotation safety sweep: for every function of router, wamp and router/auth the generator emits, without any annotation, an obligation for each failed type assertion, index or slice out of range, nil map store, nil dereference, nil function or interface call, division by zero, explicit panic and close of a nil channel that the function could execute; messages from peers are arbitrary (any of the message structs with any Dict/List content of any dynamic types). Functions under contract for other properties contribute their safety obligations; their functional clauses are assumed here and proved by those properties' checks.",
+		Assume: []string{
+			"functions without contract are checked under the default precondition that pointer parameters and receivers are not nil (a nil pointer is never produced from client input)",
+			"values received from channels satisfy the declared channel-value invariants (checked at every send in a verified function); values in maps with a declared value invariant likewise",
+			"data races, deadlocks and goroutine leaks are not decided (only sequential panic freedom per function)",
+			"external code (gorilla/websocket, ugorji codec, net/http, reflect) is trusted not to panic outwards",
+			"no map holds more than 2^62 entries",
+		}},
 	"C07": {ID: "C07", Level: "other", Structural: []string{"nonblocking"},
 		Explain: "Effect contract 'nonblocking' on every function that runs on the broker or dealer goroutine (sync*, trySend, prepareEvent, meta-event builders): checked on the SSA and call graph - no blocking send, receive or select on any path including in-place callees, so every send to a peer from there is a select with default; the in-process router-to-client queue is created with exactly the configured capacity (LinkedPeersQSize postcondition).",
 		Assume: []string{"deadlock freedom and 'eventually processed' are not decided: wait-for cycles between goroutines are not a per-function property", "the rawsocket/websocket peers' queue creation is not under contract (only the in-process peer is)"}},
@@ -158,4 +169,14 @@ func cmdReplay(args []string) {
 	fmt.Println(string(data))
 	_ = context.Background
 	_ = strings.TrimSpace
+}
+
+// Functions left out of the C04 sweep, with the reason.
+var sweepSkipC04 = []string{
+	// configuration-time API (operator input, not client input)
+	"router.NewRouter", "router.NewWebsocketServer", "router.NewRawSocketServer", "(*github.com/gammazero/nexus/v3/router.router).logMemStats",
+	// HTTP / websocket / rawsocket server glue: depends on net/http and gorilla objects outside the model
+	"router.WebsocketServer)", "router.RawSocketServer)", "router.checkOrigin", "router.protocol",
+	// package initialisers
+	".init",
 }
